@@ -83,6 +83,17 @@ void c09_run(Ctx & c)
       }
     c.run_check(PER, x, k);
     }
+  // quotient boundaries of the range reduction over the WHOLE admissible range (round 11, C09-x1: a reciprocal-multiplication
+  // reduction one bit short fails just below multiples of the period, and only for |x| > 0.8*2^62): x = m*2phi + d, |d| <= 3,
+  // m uniform up to the largest admissible multiple (half of the mass in the top quarter), compared with its image next to zero
+  n = c.share(c.n(1600000, 200000000));
+  for(uint64_t i = 0; i < n; ++i)
+    {
+    int64_t m = (i & 1) ? c.rng.range(KMAX - KMAX / 4, KMAX - 1) : c.rng.range(1, KMAX - 1);
+    if(i & 2) m = -m;
+    int64_t x = (int64_t)((i128)m * TWO_PHI) + c.rng.range(-3, 3);
+    c.run_check(PER, x, -m + c.rng.range(-1, 1));
+    }
   // the library is integer arithmetic: its results must not depend on the floating-point environment. The exact clauses
   // (range, periodicity) are re-run under the three directed rounding modes (thread-local); the judges use integers only.
   for(int mode : { FE_DOWNWARD, FE_UPWARD, FE_TOWARDZERO })
